@@ -3,6 +3,7 @@ package props
 import (
 	"fmt"
 	"go/ast"
+	"os"
 	"go/token"
 	"go/types"
 	"sort"
@@ -17,61 +18,52 @@ type mapRangeSite struct {
 	expr  string // ranged expression
 	class string // "collect" (appends to an outer slice) or "first-match" (break / element-dependent return)
 	pos   token.Pos
-	sorts bool // a sort call on the collected slice follows in the same function
+	sorts bool // a sort call on the collected slice follows in the same function (or in every caller after the call)
+	sig   string // structural signature: package | map key type | class | collected element types
 }
 
-// reviewedMapOrder lists today's order-sensitive map ranges with the reason their order cannot change the facts computed.
-// Key: function + "|" + ranged expression + "|" + class. needSort: the loop is only harmless because a sort follows.
+// reviewedMapOrder lists the kinds of order-sensitive map ranges that exist today, each with the reason the order
+// cannot change the facts computed. A kind is the structural signature
+//   package | key type of the map | class | element type(s) of what is collected
+// and not a function or variable name, so that moving such a loop into a helper, or renaming what it ranges over,
+// changes nothing. needSort: loops of this kind are only harmless because a sort follows (in the function or in
+// every caller after the call).
 var reviewedMapOrder = map[string]struct {
 	reason   string
 	needSort bool
 }{}
 
-func reviewed(fn, expr, class, reason string, needSort bool) {
-	reviewedMapOrder[fn+"|"+expr+"|"+class] = struct {
+func reviewed(sig, reason string, needSort bool) {
+	reviewedMapOrder[sig] = struct {
 		reason   string
 		needSort bool
 	}{reason, needSort}
 }
 
 func init() {
-	reviewed("analysis.newBoundsAnalyzer", "relTypeMap", "collect", "alternatives of a union type; UpperBound/SetConforms treat them as a set", false)
-	reviewed("analysis.(*BoundsAnalyzer).BoundsCheck", "predSet", "collect", "predicates are sorted by symbol and arity before they are checked", true)
-	reviewed("analysis.RewriteClause", "defVarMap", "collect", "feeds a VarList that is only searched with Find", false)
-	reviewed("analysis.NewVarList", "m", "collect", "VarList is used as a set (Find/Contains/AsMap)", false)
-	reviewed("analysis.(*Analyzer).checkPredicates", "a.decl", "collect", "only the text of an error message", false)
-	reviewed("analysis.CheckTemporalRecursion", "scc", "first-match", "picks a predicate to name in a warning message; hasTemporalPred is an existential test", false)
-	reviewed("ast.ConstSubstMap.Domain", "m", "collect", "domain of a substitution, used as a set", false)
-	reviewed("ast.Map", "kvMap", "collect", "entries are sorted by key hash, ties by printed key, before the constant is built", true)
-	reviewed("ast.Struct", "kvMap", "collect", "entries are sorted by label hash, ties by printed label, before the constant is built", true)
-	reviewed("engine.EvalStratifiedProgramWithStats", "predToStratum", "collect", "order of predicates inside one stratum = order in which their rules run inside the fixpoint loop; the fixpoint does not depend on it (C01), optional sort under WithDeterministicOrder", false)
-	reviewed("engine.(*engine).eval", "deltaRuleMap", "collect", "order of delta rules inside the fixpoint loop; optional sort under WithDeterministicOrder", false)
-	reviewed("factstore.SimpleInMemoryStore.ListPredicates", "s.shardsByPredicate", "collect", "a set of predicates; simple-column output sorts it when Deterministic", false)
-	reviewed("factstore.MergedStore.ListPredicates", "m", "collect", "a set of predicates", false)
-	reviewed("factstore.TeeingStore.ListPredicates", "m", "collect", "a set of predicates", false)
-	reviewed("factstore.IndexedInMemoryStore.ListPredicates", "s.constants", "collect", "a set of predicates", false)
-	reviewed("factstore.IndexedInMemoryStore.ListPredicates", "s.shardsByPredicate", "collect", "a set of predicates", false)
-	reviewed("factstore.MultiIndexedInMemoryStore.ListPredicates", "s.constants", "collect", "a set of predicates", false)
-	reviewed("factstore.MultiIndexedInMemoryStore.ListPredicates", "s.shardsByPredicate", "collect", "a set of predicates", false)
-	reviewed("factstore.(*MultiIndexedArrayInMemoryStore).ListPredicates", "s.constants", "collect", "a set of predicates", false)
-	reviewed("factstore.(*MultiIndexedArrayInMemoryStore).ListPredicates", "s.shardsByPredicate", "collect", "a set of predicates", false)
-	reviewed("factstore.(*TemporalStore).ListPredicates", "s.facts", "collect", "a set of predicates", false)
-	reviewed("factstore.(*TeeingTemporalStore).ListPredicates", "m", "collect", "a set of predicates", false)
-	reviewed("factstore.(*TemporalStore).Coalesce", "predMap", "collect", "the slice is local to one atom's tree; trees are independent", false)
-	reviewed("interpreter.(*Interpreter).Show", "i.knownPredicates", "collect", "display only (the listing is sorted by symbol, the second loop builds a did-you-mean message)", false)
-	reviewed("analysis.CheckTemporalRecursion", "scc", "collect", "order of warnings in the returned list; every warning is reported", false)
-	reviewed("analysis.AnalyzeAndCheckBounds", "pkgs", "collect", "order of the clauses of different packages in the program; the model does not depend on clause order (C01 fixpoint, classification rule)", false)
-	reviewed("engine.makeDeltaRules", "decls", "collect", "per-predicate lists of delta rules; the set of delta rules is the same for both map orders (evaluated under rule two-map-orders)", false)
-	reviewed("interpreter.(*Interpreter).Show", "i.knownPredicates", "first-match", "prints the first predicate with the requested name; display only", false)
-	reviewed("interpreter.(*Interpreter).ParseQuery", "i.knownPredicates", "first-match", "a bare predicate name that is known with two arities picks one of them: interactive convenience, the query result for the chosen arity is exact", false)
-	reviewed("interpreter.(*Interpreter).Define", "programInfo.Decls", "collect", "list printed in the 'defined ...' message", false)
-	reviewed("provenance.collectVars", "seen", "collect", "extractBindings sorts the bindings by variable name", false)
-	reviewed("rewrite.makeHead", "vars", "collect", "column order of an internal relation; sorted by variable hash, and producer and consumer use the same atom", true)
-	reviewed("symbols.unique", "hashes", "collect", "members of a union type, compared as a set by SetConforms", false)
+	reviewed("ast|ast.Variable|collect|ast.Variable", "domain of a substitution, used as a set (ConstSubstMap.Domain)", false)
+	reviewed("symbols|uint64|collect|ast.Atom", "members of a union type, compared as a set by SetConforms (unique)", false)
+	reviewed("factstore|ast.PredicateSym|collect|ast.PredicateSym", "ListPredicates of the stores: a set of predicates; simple-column output sorts it when Deterministic", false)
+	reviewed("analysis|ast.Variable|collect|ast.Variable", "feeds a VarList that is only searched (Find/Contains/AsMap) (RewriteClause, NewVarList)", false)
+	reviewed("analysis|uint64|collect|ast.BaseTerm", "alternatives of a union type; UpperBound/SetConforms treat them as a set (newBoundsAnalyzer)", false)
+	reviewed("analysis|ast.PredicateSym|collect|ast.PredicateSym", "predicates are sorted by symbol and arity before they are checked (BoundsCheck)", true)
+	reviewed("analysis|ast.PredicateSym|collect|int", "only the text of an error message (checkPredicates)", false)
+	reviewed("analysis|ast.PredicateSym|collect|analysis.TemporalWarning", "order of warnings in the returned list; every warning is reported (CheckTemporalRecursion)", false)
+	reviewed("analysis|ast.PredicateSym|first-match|", "picks a predicate to name in a warning message; hasTemporalPred is an existential test (CheckTemporalRecursion)", false)
+	reviewed("analysis|string|collect|ast.Clause,ast.Decl", "order of the clauses of different packages in the program; the model does not depend on clause order (C01 fixpoint, classification rule) (AnalyzeAndCheckBounds)", false)
+	reviewed("rewrite|ast.Variable|collect|ast.BaseTerm", "column order of an internal relation; sorted by variable hash, and producer and consumer use the same atom (makeHead)", true)
+	reviewed("engine|ast.PredicateSym|collect|engine.Stats", "order of predicates inside one stratum = order in which their rules run inside the fixpoint loop; the fixpoint does not depend on it (C01), optional sort under WithDeterministicOrder", false)
+	reviewed("engine|ast.PredicateSym|collect|ast.Clause", "per-predicate lists of delta rules; the set of delta rules is the same for both map orders (evaluated under rule two-map-orders) (makeDeltaRules)", false)
+	reviewed("engine|ast.PredicateSym|collect|ast.PredicateSym", "order of delta rules inside the fixpoint loop; optional sort under WithDeterministicOrder (eval)", false)
+	reviewed("interpreter|ast.PredicateSym|collect|ast.PredicateSym", "display only: the listing of Show is sorted by symbol, Define prints a 'defined ...' message", false)
+	reviewed("interpreter|ast.PredicateSym|collect|string", "display only: did-you-mean message of Show", false)
+	reviewed("interpreter|ast.PredicateSym|first-match|", "a bare predicate name that is known with two arities picks one of them: interactive convenience, the query result for the chosen arity is exact (ParseQuery, Show)", false)
+	reviewed("provenance|string|collect|ast.Variable", "extractBindings sorts the bindings by variable name (collectVars)", false)
 }
 
 // mapOrderRule (engine E4): every order-sensitive range over a map in the pipeline packages is reviewed.
-func mapOrderRule(c *core.Ctx, rule string, pkgs []string) {
+func mapOrderRule(c0 *core.Ctx, rule string, pkgs []string) {
+	c := &moCtx{Ctx: c0}
 	var sites []mapRangeSite
 	total := 0
 	for _, rel := range pkgs {
@@ -163,48 +155,103 @@ func mapOrderRule(c *core.Ctx, rule string, pkgs []string) {
 					return true
 				})
 				expr := core.Src(c.Prog.Fset, rs.X)
+				qual := func(p *types.Package) string { return p.Name() }
+				keyT := types.TypeString(t.Underlying().(*types.Map).Key(), qual)
 				if len(collected) > 0 {
-					// does a sort follow?
-					sorts := false
-					ast.Inspect(f.Decl.Body, func(m ast.Node) bool {
-						call, ok := m.(*ast.CallExpr)
-						if !ok || call.Pos() < rs.End() {
-							return true
+					// does a sort follow - here, or in every caller after the call (the loop may live in a helper)?
+					sorts := sortFollows(info, f.Decl.Body, rs.End())
+					if !sorts {
+						sorts = c.sortFollowsInCallers(f)
+					}
+					var elems []string
+					for o := range collected {
+						et := o.Type().Underlying()
+						if m, ok := et.(*types.Map); ok {
+							et = m.Elem().Underlying()
 						}
-						nm := core.CallName(info, call)
-						if strings.HasPrefix(nm, "sort.") || nm == "ast.SortIndexInto" || strings.HasPrefix(nm, "slices.Sort") {
-							sorts = true
+						if sl, ok := et.(*types.Slice); ok {
+							elems = append(elems, types.TypeString(sl.Elem(), qual))
+						} else {
+							elems = append(elems, types.TypeString(o.Type(), qual))
 						}
-						return true
-					})
-					sites = append(sites, mapRangeSite{f.Name, expr, "collect", rs.Pos(), sorts})
+					}
+					sort.Strings(elems)
+					sites = append(sites, mapRangeSite{f.Name, expr, "collect", rs.Pos(), sorts, rel + "|" + keyT + "|collect|" + strings.Join(elems, ",")})
 				}
 				if first {
-					sites = append(sites, mapRangeSite{f.Name, expr, "first-match", rs.Pos(), false})
+					sites = append(sites, mapRangeSite{f.Name, expr, "first-match", rs.Pos(), false, rel + "|" + keyT + "|first-match|"})
 				}
 				return true
 			})
 		}
 	}
 	sort.Slice(sites, func(i, j int) bool { return sites[i].pos < sites[j].pos })
-	seen := map[string]bool{}
+	if os.Getenv("MGCHECK_DUMP_MAPORDER") != "" {
+		for _, s := range sites {
+			fmt.Printf("MAPORDER-SITE %s|%s|%s => %s sorts=%v\n", s.fn, s.expr, s.class, s.sig, s.sorts)
+		}
+	}
 	for _, s := range sites {
-		key := s.fn + "|" + s.expr + "|" + s.class
-		cons := s.fn + ":range " + s.expr + ":" + s.class
-		rv, ok := reviewedMapOrder[key]
-		seen[key] = true
+		cons := s.sig
+		rv, ok := reviewedMapOrder[s.sig]
 		switch {
 		case !ok:
-			c.Bad(rule, cons, s.pos, "unreviewed order-sensitive iteration over a Go map (%s): map order is random per run, so whatever is built here may differ between two runs of the same program; if the order is unobservable, the reviewed table takes an entry with the reason", s.class)
+			c.Bad(rule, cons, s.pos, "%s ranges over %s: an order-sensitive iteration over a Go map (%s) of a kind that is not in the reviewed table (package | key type | class | collected element type): map order is random per run, so whatever is built here may differ between two runs of the same program; if the order is unobservable, the table takes an entry with the reason", s.fn, s.expr, s.class)
 		case rv.needSort && !s.sorts:
-			c.Bad(rule, cons, s.pos, "this loop collects from a map and was only harmless because the slice is sorted afterwards (%s); no sort call follows it any more", rv.reason)
+			c.Bad(rule, cons, s.pos, "%s ranges over %s: this kind of loop collects from a map and is only harmless because the slice is sorted afterwards (%s); no sort call follows it, neither here nor in the callers", s.fn, s.expr, rv.reason)
 		default:
-			c.OK(rule, cons, s.pos, "reviewed: %s", rv.reason)
+			c.OK(rule, cons, s.pos, "%s ranges over %s; reviewed: %s", s.fn, s.expr, rv.reason)
 		}
 	}
 	c.Cover("map_ranges_scanned", total)
 	c.Note("%d ranges over maps scanned in %v; %d order-sensitive (collect / first-match)", total, pkgs, len(sites))
-	_ = fmt.Sprint
+}
+
+type moCtx struct{ *core.Ctx }
+
+func isSortCall(nm string) bool {
+	return strings.HasPrefix(nm, "sort.") || nm == "ast.SortIndexInto" || strings.HasPrefix(nm, "slices.Sort")
+}
+
+// sortFollows reports whether a sort call occurs in body after position after.
+func sortFollows(info *types.Info, body ast.Node, after token.Pos) bool {
+	found := false
+	ast.Inspect(body, func(m ast.Node) bool {
+		call, ok := m.(*ast.CallExpr)
+		if !ok || call.Pos() < after {
+			return true
+		}
+		if isSortCall(core.CallName(info, call)) {
+			found = true
+		}
+		return true
+	})
+	return found
+}
+
+// sortFollowsInCallers: f has at least one static caller in its package and each of them sorts after calling f.
+func (c *moCtx) sortFollowsInCallers(f *core.Func) bool {
+	rel := core.RelOf(f.Pkg.Types)
+	n := 0
+	for _, g := range c.Prog.AllFuncs(rel) {
+		info := g.Pkg.TypesInfo
+		var calls []*ast.CallExpr
+		ast.Inspect(g.Decl.Body, func(m ast.Node) bool {
+			if call, ok := m.(*ast.CallExpr); ok {
+				if fn, _ := core.Callee(info, call).(*types.Func); fn != nil && fn == f.Obj {
+					calls = append(calls, call)
+				}
+			}
+			return true
+		})
+		for _, call := range calls {
+			n++
+			if !sortFollows(info, g.Decl.Body, call.End()) {
+				return false
+			}
+		}
+	}
+	return n > 0
 }
 
 // innermostLoop reports whether the break statement belongs to rs (no other loop or switch in between).
